@@ -65,12 +65,25 @@ def enumerate_cases(tier, scope):
                         for do in (['kill', 'hk'], ['pause', 'hp']):
                             for raising in (None, 0, 1):
                                 yield {'program': cat[name], 'schedule': [['tick', 2], ['pause', 'p']], 'hooks': [{'hook': hook, 'occ': occ, 'pos': pos, 'do': do}], 'cleanup_raises': raising, 'listener_twice': occ == 2, 'cleanup_follow_up': pos == 'post'}
+        # an output emitted from the hooks around the end of the last step (a summary written at the very end): result,
+        # outcome future, listeners and the process itself keep telling the same story
+        for name in ('wait1', 'chain', 'async2', 'sync3', 'waitwait'):
+            for hook, pos in (('on_finish', 'pre'), ('on_finish', 'post'), ('on_finished', 'pre'), ('on_finished', 'post'), ('on_exit_running', 'post'), ('on_exiting', 'post')):
+                for occ in (1, 2, 3):
+                    for sched in ([], [['tick', 1], ['pause', 'p'], ['tick', 2], ['play']]):
+                        yield {'program': cat[name], 'schedule': sched, 'hooks': [{'hook': hook, 'occ': occ, 'pos': pos, 'do': ['out', ['late', 7]]}]}
     elif scope == 'listener':
         # a listener that close()s the process as soon as it hears that it terminated (before on_terminated does)
         for name in ('wait1', 'chain', 'waitwait', 'async2', 'failing', 'selfkill'):
             for on in ('on_process_finished', 'on_process_killed', 'on_process_excepted'):
                 for sched in list(gen.schedules([['pause', 'p'], ['play'], ['kill', 'kt'], ['fail', 'f']], 1, 3)) + list(gen.schedules([['pause', 'p'], ['kill', 'kt'], ['fail', 'f']], 2, 2)):
                     yield {'program': cat[name], 'schedule': sched, 'listener': [{'on': on, 'occ': 1, 'do': ['close', None]}]}
+        # a listener that takes itself off the process, or puts another listener on it, from inside a notification
+        for name in ('wait1', 'chain', 'async2', 'failing', 'selfkill'):
+            for on in ('on_process_finished', 'on_process_killed', 'on_process_excepted', 'on_process_running', 'on_process_waiting'):
+                for do in (['unsubscribe'], ['subscribe']):
+                    for sched in list(gen.schedules([['pause', 'p'], ['kill', 'kt'], ['fail', 'f']], 1, 3)) + [[]]:
+                        yield {'program': cat[name], 'schedule': sched, 'listener': [{'on': on, 'occ': 1, 'do': do}]}
         notifs = ['on_process_running', 'on_process_waiting', 'on_process_paused', 'on_process_played', 'on_output_emitted']
         for name in ('wait1', 'chain', 'waitwait', 'async2'):
             for on in notifs:
@@ -193,7 +206,10 @@ def execute(case):
                 elif msg[0] == 'ok' and (text or '') not in texts:
                     v('killed-text', f'killed_msg text {text!r} not among issued {sorted(texts)}')
             # listeners: exactly one terminal notification, of the matching kind
-            if term_notes != [TERMINAL_NOTES[final]]:
+            gone = [u for u in w.extra.get('unsubscribed', []) if u[0] not in TERMINAL_NOTES.values()]
+            if gone and not term_notes:
+                classes.append('listener-left-before-the-end')  # it took itself off the process earlier: nothing to hear
+            elif term_notes != [TERMINAL_NOTES[final]]:
                 v('terminal-notification', f'state {final}, terminal notifications {term_notes}')
             # cleanups exactly once, closed
             calls = [c.calls for c in ex.cleanups]
